@@ -39,7 +39,7 @@ def world_cfg(case):
         peer["timers"]["dwa"] = t["p_dwa"]
     return {"peers": [peer], "apps": [{"app_id": 4, "auth": True, "peers": [0], "handler": "answer"}],
             "node_timers": {"idle": t["idle"], "dwa": t["dwa"], "cer": 100, "cea": 100, "wakeup": t["wakeup"]},
-            "default_dial": "ok", "sched_seed": case.get("seed", 0)}
+            "default_dial": "ok", "sched_seed": case.get("seed", 0), "timers_after_peers": bool(case.get("timers_after_peers"))}
 
 
 def evaluate(case) -> Result:
@@ -219,6 +219,8 @@ def evaluate(case) -> Result:
         if W.monitor_threads(w):
             res.classes.append("cross:thread-died")
         res.nontrivial = episodes >= 1 and outcomes >= 1
+        if case.get("timers_after_peers"):
+            res.classes.append("config-order:timers-after-peers")
         res.classes += [f"dir:{case['dir']}", f"episodes:{min(episodes, 3)}", f"outcomes:{min(outcomes, 3)}",
                         f"peer-idle:{bool(t.get('p_idle'))}", f"peer-dwa:{bool(t.get('p_dwa'))}",
                         "closed-by-watchdog" if closed_handled else "open-at-end"]
@@ -406,6 +408,7 @@ def shard_main(shard, nshards, tier, scale):
         return {"dir": draw(st.sampled_from(["in", "out"])), "timers": timers, "seed": draw(st.integers(0, 3)),
                 "spell": draw(st.sampled_from([None, None, "Peer1.EXAMPLE"])),
                 "prelude": draw(st.sampled_from([None, None, "dpr", "close"])),
+                "timers_after_peers": draw(st.booleans()),
                 "events": [list(e) for e in draw(st.lists(ev, min_size=1, max_size=40))]}
 
     def body(case):
@@ -432,6 +435,7 @@ def shard_main(shard, nshards, tier, scale):
         else:
             ev += [["ADV", 1]] * delay + [["DWA"] if (idle + dwa + wake + delay) % 3 else ["DWA", 3004]] + [["ADV", 1]] * (idle + wake + 2)
         case = {"dir": d, "timers": {"idle": idle, "dwa": dwa, "wakeup": wake, "p_idle": None, "p_dwa": None},
+                "timers_after_peers": (idle + dwa + wake + (delay or 0)) % 2 == 0,
                 "events": ev, "prelude": [None, "dpr", "close"][(idle + dwa + wake) % 3] if d == "in" else None}
         res = evaluate(case)
         res.classes.append("systematic")
@@ -444,7 +448,7 @@ def run(tier, scale=1.0):
     rec = Recorder(PID)
     for d in hyp.pool_run(shard_main, (tier, scale)):
         rec.merge(d)
-    required = {"dwa-vs-timer": 1, "schedule-exploration": 1, "stray-dwa:dwr-in-turn:1": 1, "prelude:dpr": 1, "prelude:close": 1, "dwa-result:3004": 1, "dwa-result:none": 1, "identity:respelled": 1, "fragment": 1, "tx-blocked": 1, "dir:in": 1, "dir:out": 1, "episodes:2": 1, "closed-by-watchdog": 1, "peer-idle:True": 1,
+    required = {"config-order:timers-after-peers": 1, "dwa-vs-timer": 1, "schedule-exploration": 1, "stray-dwa:dwr-in-turn:1": 1, "prelude:dpr": 1, "prelude:close": 1, "dwa-result:3004": 1, "dwa-result:none": 1, "identity:respelled": 1, "fragment": 1, "tx-blocked": 1, "dir:in": 1, "dir:out": 1, "episodes:2": 1, "closed-by-watchdog": 1, "peer-idle:True": 1,
                 "peer-dwa:True": 1, "outcomes:2": 1}
     return finish(rec, tier=tier, level="exploration", rule=RULE, assumptions=ASSUME, t0=t0,
                   required_classes=required)
